@@ -39,6 +39,14 @@ Theorem C12_safe_unless_listed : forall d, In d dispatchers -> ~ In d unsafe -> 
 Proof. exact c_safe_unless_listed. Qed.
 Print Assumptions C12_safe_unless_listed.
 
+(* (c') on the current tree [unsafe] is empty: EVERY dispatched entry point of the library, in
+   EVERY consistent environment meeting its documented minimum, binds executable code *)
+Theorem C12_all_dispatchers_safe : forall d, In d dispatchers ->
+  forall e, consistent e -> doc_min_ok (d_entry d) e ->
+  exists x, exec (d_entry d) (d_code d) e = Some x /\ executable tbl e x.
+Proof. exact c_all_safe. Qed.
+Print Assumptions C12_all_dispatchers_safe.
+
 (* (d) entry points that operate on one shared object bind the same implementation family, in
    every environment whatsoever (no consistency hypothesis): hash manager init/submit/flush of
    each algorithm, the 12 GCM entry points of each key size, multi-hash update/finalize *)
